@@ -10,6 +10,7 @@ Digit-exact rendering is value-level and NOT decided.  Decided structural clause
       items are an error
 """
 from . import kwalk, chartab, units, evalmarks as em, c01, c06, prov
+from . import facts
 from .facts import callee_name, AnchorMissing
 
 EXPLANATION = (
@@ -821,6 +822,126 @@ def rule_r8(F, rep):
     rep.floor(R, n, 2, "float renderers that trim zeros")
 
 
+def rule_r9(F, rep):
+    from . import scanfsm
+    R = rep.rule("C19.R9", "sign flags: for every numeric renderer that do_std_format_code hands the `+` and space flags to, a "
+                 "non-negative value is prefixed with `+` exactly when the `+` flag is set, with a space exactly when only the space "
+                 "flag is set, and with nothing when neither is — decided by linking each renderer parameter to the CFlags field it "
+                 "receives (`plus` / `blank`) at the call site and walking the renderer, helpers included, for the four flag "
+                 "combinations. Two same-typed bool parameters are easily swapped at a call")
+    CF = [q for q in F.adts if q.endswith("::format::CFlags")]
+    if not CF:
+        raise facts.AnchorMissing("format::CFlags")
+    CF = CF[0]
+    fn = F.fn("<%s>::do_std_format_code" % em.EVAL)
+    body = fn.body
+    defs = {}
+    for bb, si, st in body.assigns():
+        if not st["p"]["p"]:
+            defs.setdefault(st["p"]["l"], []).append(st["rv"])
+
+    def flag_of(op, depth=0):
+        if op["k"] not in ("copy", "move") or depth > 6:
+            return None
+        pr = [p for p in op["p"] if p != "*"]
+        if pr and pr[-1]["k"] == "f" and pr[-1].get("n") in ("plus", "blank"):
+            ot = body.ty(pr[-1]["o"]) if "o" in pr[-1] else None
+            if ot is None or (ot.get("k") == "adt" and ot.get("d") == CF):
+                return pr[-1]["n"]
+        if op["p"]:
+            return None
+        ds = defs.get(op["l"], [])
+        if len(ds) == 1 and ds[0]["k"] == "use":
+            return flag_of(ds[0]["x"], depth + 1)
+        return None
+    links = {}
+    for bb, t in body.calls():
+        q = t["f"].get("r") if t["f"].get("rlocal") else None
+        if not q or F.fn_opt(q) is None:
+            continue
+        m = {}
+        for i, x in enumerate(t["xs"]):
+            fl = flag_of(x)
+            if fl:
+                m[i + 1] = fl
+        if m:
+            if set(m.values()) != {"plus", "blank"} or len(m) != 2:
+                raise kwalk.WalkLimit("do_std_format_code passes only some sign flags to %s" % q)
+            if q in links and links[q] != m:
+                rep.ob(R, "%s|call-sites-agree" % q.rsplit("::", 1)[-1], False)
+                rep.violation(R, "%s|inconsistent-flag-arguments" % q, "do_std_format_code passes the `+` / space flags to %s in different "
+                              "parameter positions at different call sites (%s vs %s)" % (q.rsplit("::", 1)[-1], links[q], m), body.span(t["sp"]))
+            links.setdefault(q, m)
+    if len(links) < 2:
+        raise kwalk.WalkLimit("do_std_format_code does not hand the `+` / space flags to its renderers as two separate arguments "
+                              "(%d linked renderer(s)): the flag-to-sign table cannot be built for this shape" % len(links))
+    n = 0
+    for q, m in sorted(links.items()):
+        g = F.fn(q)
+        rep.fn(g)
+        pi = {v: k for k, v in m.items()}
+        for plus in (0, 1):
+            for blank in (0, 1):
+                def on_stmt(w, bb, idx, st, env):
+                    if st["k"] != "assign":
+                        return None
+                    out = None
+                    for c in _consts_in(st["rv"]):
+                        out = out or _sign_const(w.body, c)
+                    return ("sign", out) if out else None
+
+                def on_term(w, bb, t, env):
+                    if t["k"] == "call":
+                        for x in t["xs"]:
+                            if x.get("k") == "const":
+                                sc = _sign_const(w.body, x)
+                                if sc:
+                                    return ("sign", sc)
+                    return None
+                w = scanfsm._ScanWalker(F, g.body, on_stmt=on_stmt, on_term=on_term, max_states=300000)
+                outs = w.run(0, {str(pi["plus"]): plus, str(pi["blank"]): blank})
+                rep.states += w.states_explored
+                per_path = [frozenset(mk[1] for mk in marks if mk[0] == "sign") for kind, marks, _ in outs if kind == "return"]
+                seen = set().union(*per_path) if per_path else set()
+                want = {"+"} if plus else ({" "} if blank else set())
+                n += 1
+                ok = seen == want
+                rep.ob(R, "%s|plus=%d|blank=%d" % (q.rsplit("::", 1)[-1], plus, blank), ok,
+                       {"renderer": q, "plus": plus, "blank": blank, "sign constants on returning paths": sorted(seen)})
+                if not ok:
+                    rep.violation(R, "%s|sign|plus=%d|blank=%d" % (q, plus, blank), "%s with the `+` flag %s and the space flag %s can emit %s "
+                                  "before a non-negative number; printf requires %s" % (q.rsplit("::", 1)[-1], "set" if plus else "clear",
+                                                                                        "set" if blank else "clear", sorted(seen) or "nothing",
+                                                                                        sorted(want) or "nothing"), g.loc)
+    rep.floor(R, n, 8, "renderer x flag combinations")
+
+
+def _consts_in(node):
+    if isinstance(node, dict):
+        if node.get("k") == "const":
+            yield node
+        for v in node.values():
+            if isinstance(v, (dict, list)):
+                for c in _consts_in(v):
+                    yield c
+    elif isinstance(node, list):
+        for v in node:
+            for c in _consts_in(v):
+                yield c
+
+
+def _sign_const(body, c):
+    if isinstance(c.get("str"), str) and c["str"] in ("+", " "):
+        return c["str"]
+    if isinstance(c.get("v"), int) and c["v"] in (0x2B, 0x20) and "t" in c:
+        try:
+            if body.ty(c["t"])["s"] in ("char", "u8"):
+                return chr(c["v"])
+        except Exception:
+            return None
+    return None
+
+
 def run(F, rep, tier):
     rep.attempt(rule_r1, F, rep)
     rep.attempt(units.rule_mix, F, rep, "C19.R2")
@@ -831,6 +952,7 @@ def run(F, rep, tier):
     rep.attempt(rule_r6, F, rep)
     rep.attempt(rule_r7, F, rep)
     rep.attempt(rule_r8, F, rep)
+    rep.attempt(rule_r9, F, rep)
     from . import casts
     rep.attempt(casts.rule, F, rep, "C06.R4")
     rep.assume("digit-exact rendering (rounding, exponent form, %g) is value-level and not decided")
